@@ -42,6 +42,7 @@ impl Prop for C08 {
     fn strategy(tier: Tier) -> BoxedStrategy<Case> {
         let mut p = params(tier);
         p.cogen_heavy = true;
+        p.aux_non_epb = true;
         (bf_case(p, 50), prop::bool::weighted(0.1)).prop_map(|(base, d)| Case { base, drop_cogen_input: d }).boxed()
     }
     fn describe(c: &Case) -> Value {
@@ -51,6 +52,12 @@ impl Prop for C08 {
     }
     fn check(c: &Case, ctx: &mut Ctx) -> CheckResult {
         let e = effective(c);
+        if c.drop_cogen_input && e.b.render().parse::<cteepbd::Components>().is_err() {
+            // removing the cogeneration input may leave an auxiliary-bearing system without any
+            // consumption line, which the parser rejects: nothing to compare
+            ctx.label("rejected_after_dropping_cogen_input");
+            return Ok(());
+        }
         let inp = inputs(&e.b, &e.f)?;
         let sc = inp.scales(e.area);
         let full = inp.factors.clone();
